@@ -227,6 +227,7 @@ class Executor:
         # caller-owned objects
         self.pl_steps, self.pl_opts = [], {}
         self.pi = None
+        self.holder = {}             # caller-owned training sets
         self.events = []
         self.hashobs = {}            # distinct (state, hash) observations
         self.short = int(np.sum(self.idnt["segment"] == 0)) < 600
@@ -277,7 +278,7 @@ class Executor:
               "expect": "none", "retok": True, "rater": "none",
               "streq": False, "badval": False, "via": "fresh",
               "kwvals": {}, "orphan": False, "rxhi": "none",
-              "binfail": False, "contnan": False, "tree": False, "pseudo": False,
+              "binfail": False, "details": False, "contnan": False, "tree": False, "pseudo": False,
               "retnum": {"m1": False, "zero": False, "inrange": False,
                          "finite": False}}
         pre = self.events[-1]["post"] if self.events else self.init_state
@@ -367,7 +368,7 @@ class Executor:
 
     def op_apply(self, op, ev, args, pre):
         steps, opts = self._pipe_args(op)
-        ev["via"] = op.get("via", "fresh")
+        ev["via"] = "obj" if op.get("via") == "obj" else "fresh"
         self._pipe_event(ev, steps, opts)
         cur = self.stored_pipeline()
         ev["streq"] = bool(
@@ -376,7 +377,11 @@ class Executor:
             == world._strict([cur[0], cur[1]])
             and type(steps) is type(cur[0]))
         self._watch(args, steps, opts)
-        self.idnt.apply_preprocessing(steps, opts)
+        if op.get("via") == "details":
+            ev["details"] = True
+            self.idnt.apply_preprocessing(steps, opts, ret_details=True)
+        else:
+            self.idnt.apply_preprocessing(steps, opts)
 
     # -- fit_properties[k] = v
     def _setting_event(self, ev, key, val, pre):
@@ -484,14 +489,15 @@ class Executor:
 
     # -- rate_quality
     def op_rate(self, op, ev, args, pre):
-        rargs = world.resolve_rater(op["rater"])
+        rargs = world.resolve_rater(op["rater"], self.holder)
         ev["rater"] = op["rater"]
         ev["tree"] = bool(rargs.get("tree", False))
         ev["pseudo"] = str(rargs["regressor"]).lower() == "none"
         call = dict(regressor=rargs["regressor"],
                     training_set=rargs["training_set"],
                     names=rargs["names"], lda=rargs["lda"])
-        if op.get("copyargs"):
+        if op.get("copyargs") and "obj__" not in str(
+                world.RATERS[op["rater"]]["training_set"]):
             call = copy.deepcopy(call)
         self._watch(args, *[v for v in call.values() if v is not None])
         # expected value from the standalone rater on a fresh fitted copy
